@@ -38,6 +38,9 @@ fn main() {
         ctx.run_slice(Slice::new(format!("forget-terms-2-edges[{}]", spec2.name()), u2.count(), |i, loc| check_forget_term(&u2.get(i), loc)));
     }
     // a third node label on four nodes (label-keyed caches in the functor machinery behind forget)
+    let xsf = if quick { Spec::open(2, 2, 2, 2, 2, 1, 1) } else { Spec::open(3, 2, 2, 1, 2, 1, 1) };
+    let xuf = xsf.universe();
+    ctx.run_slice(Slice::new(format!("forget-terms-exploded[{}]", xsf.name()), xuf.count(), |i, loc| check_forget_term(&ohmc_core::plain::PLax::exploded(&xuf.get_open(i)), loc)));
     let s3l = Spec { n_min: 4, n_max: 4, e_min: 0, e_max: 1, ks: 1, kt: 1, lw: 3, lx: 2, a: 1, b: 1, q: 0 };
     let u3l = s3l.universe();
     ctx.run_slice(Slice::new(format!("forget-terms-three-labels[{}]", s3l.name()), u3l.count(), |i, loc| check_forget_term(&u3l.get(i), loc)));
